@@ -22,7 +22,7 @@ Here is a semantic property the library is supposed to satisfy:
 
 Your task: produce ONE realistic change to the library source (non-test .go or .s files under /tmp/wt-{pid}) that BREAKS this property while the code still compiles and the whole existing test suite still passes. Prefer a change that needs something specific to manifest — a particular interleaving, a fault at a particular point, a multi-step sequence of operations, an unusual input, or two cooperating sites that each look fine alone — NOT one that ordinary use would expose at once. It should look like something a developer could plausibly write (a refactor gone slightly wrong, an optimisation, a dropped check, an off-by-one, a swapped argument), not sabotage with dead giveaway names. Do not reuse the examples mentioned in the property text above; find a different one.{(" Also do NOT base your change on any of the following, which have already been explored: " + avoid + ". Pick a different function and a different kind of mistake.") if avoid else ""}
 
-Also write a demonstration: a small Go test file or program (kept OUTSIDE the patch, e.g. a _test.go file you add only for the demo, or a main package in a scratch module using `replace github.com/crate-crypto/go-ipa => /tmp/wt-{pid}` and a copy of /tmp/wt-{pid}/go.sum) that FAILS (or visibly shows the violation) with your change applied and PASSES on the unchanged code. Verify both directions yourself (git stash / git checkout to compare).
+Also write a demonstration: a small Go test file or program (kept OUTSIDE the patch, e.g. a _test.go file you add only for the demo, or a main package in a scratch module using `replace github.com/crate-crypto/go-ipa => /tmp/wt-{pid}` and a copy of /tmp/wt-{pid}/go.sum) that FAILS (or visibly shows the violation) with your change applied and PASSES on the unchanged code. Verify both directions yourself. IMPORTANT: do NOT use `git stash` (the stash is shared between all worktrees of this repository and other people are working in sibling worktrees); to compare, save your change with `git -C /tmp/wt-{pid} diff > /tmp/out-{pid}/patch.diff`, remove it with `git -C /tmp/wt-{pid} apply -R /tmp/out-{pid}/patch.diff`, and put it back with `git -C /tmp/wt-{pid} apply /tmp/out-{pid}/patch.diff`.
 
 Deliver in /tmp/out-{pid}/:
   - patch.diff   : output of `git -C /tmp/wt-{pid} diff` containing ONLY the library change (not the demo)
